@@ -97,7 +97,16 @@ func (svr *Server) handshakeDataChannel(wsc websocket.Conn) {
 	si, ok := svr.sessions.Load(channelID)
 	if ok {
 		session = si.(*Session)
-	} else {
+	}
+	// Each channel passed the HTTP token / pull-right check for its own WebSocket
+	// path and user only. A data channel therefore joins a session only when it
+	// was opened on the same path by the same user; otherwise the session's media
+	// would go to a caller whose right was verified for another stream.
+	if session != nil && (wsc.Path() != session.wsPath || wsc.Username() != session.wsUser) {
+		session = nil
+		code = 403
+		text = "FORBIDDEN"
+	} else if session == nil {
 		code = 404
 		text = "NOT FOUND"
 	}
